@@ -31,7 +31,7 @@ ASSUMPTIONS = ["model decoder and exact subgroup membership (vf/model/bls12381.p
 ENGINE = "hypothesis (structure-aware byte mutation) + atheris in the thorough tier"
 TECHNIQUE = ("structure-aware fuzzing: Hypothesis byte mutator and exhaustive length grids, atheris/libFuzzer coverage-guided campaigns in the thorough tier; oracles = totality, model validity predicate, pairing-argument monitor")
 MUTS = ("valid", "truncated", "extended_lead", "extended_trail", "extended_mid", "flags", "second_word_flags", "special_x", "off_curve",
-        "non_subgroup", "zero_component", "small_order", "kG+T", "identity_enc", "random")
+        "non_subgroup", "zero_component", "small_order", "kG+T", "identity_enc", "uncompressed", "random")
 _REQ = ([f"pk:{m}" for m in MUTS] + [f"sig:{m}" for m in MUTS] +
         ["entry:KeyValidate", "entry:Verify", "entry:AggregateVerify", "entry:FastAggregateVerify",
          "entry:PopVerify", "pairing_calls_checked", "python_-O:cases", "accepted:honest", "pos:last", "pos:first",
@@ -384,6 +384,16 @@ def mutate(g, base: bytes, mut: str, a: int, b: int, blob: bytes) -> bytes:
         base_pt = (B.pubkey_point if g == "G1" else B.signature_point)(base)
         T = bc.small_point(g, bc.SMALL_ORDERS[g][b % 2], 1) if b % 4 < 2 else bc.torsion_point(g, a % 60)
         return enc(BLS.add(g, base_pt, T))
+    if mut == "uncompressed":
+        # the ZCash UNCOMPRESSED serialization of the very same (valid) point: x || y with the flag bits clear,
+        # 96 bytes for G1, 192 for G2 - a genuine encoding of the right point, but not the canonical one
+        pt = (B.pubkey_point if g == "G1" else B.signature_point)(base)
+        if pt is None:
+            return bytes([0x40]) + bytes(2 * nominal - 1)
+        if g == "G1":
+            return pt[0].to_bytes(48, "big") + pt[1].to_bytes(48, "big")
+        (x0, x1), (y0, y1) = pt
+        return b"".join(v.to_bytes(48, "big") for v in (x1, x0, y1, y0))
     if mut == "identity_enc":
         lead = [0xC0, 0xE0, 0x40, 0xC0][b % 4]
         out = bytes([lead]) + bytes(nominal - 1)
